@@ -11,8 +11,9 @@
    Set+unlock.  The scan of the done bits in loadRange happens under the RLock and is one step.
 
    Index rows, the store oracle, sort.Search and the null chunk are shared with Model/ReadSeeker.v.
-   NewSparseFile is one atomic step ([restart]): a kill between its Truncate and the WriteState that ends the
-   path which did not load the saved state is not modelled (see props/C10.json level_note).  A state save file is
+   NewSparseFile is one atomic step ([restart], or [LFailedStart] when it returns an error): it replaces the saved
+   state BEFORE it resizes the cache file, so a start-up cut short in between leaves either nothing changed or a
+   blank state next to the old cache file, which the next start-up treats like [restart] does.  A state save file is
    always configured.  Between runs the cache file may be deleted or truncated/extended once ([cache_mode]), the
    state file may be unreadable ([m_state]); replacing the CONTENT of either file by an external party is not a
    label of this system.
@@ -71,7 +72,8 @@ Definition write_at (f : bytes) (off : nat) (d : bytes) : bytes :=
 (* os.File.Truncate *)
 Definition resize (f : bytes) (n : nat) : bytes := firstn n f ++ repeat 0%N (n - List.length f).
 
-Inductive rerr := XStore (code : N) | XNoData | XNegative | XUnexpectedEOF (* io.ErrUnexpectedEOF *).
+Inductive rerr := XStore (code : N) | XNoData | XNegative | XUnexpectedEOF (* io.ErrUnexpectedEOF *)
+  | XFile (* os.OpenFile on the cache file failed *).
 Inductive request := RqRead (off : Z) (len : nat) | RqLoad (i : nat) | RqSave.
 Inductive result := ROk (data : bytes) (eof : bool) | RErr (e : rerr) | RDone.
 
@@ -105,7 +107,9 @@ Record rmode := mkmode { m_state : bool; m_cache : cache_mode; m_preload : bool 
 Inductive label :=
 | LThread (k : nat)
 | LSubmit (k : nat) (rq : request)
-| LRestart (m : rmode).
+| LRestart (m : rmode)
+| LFailedStart (m : rmode)
+| LUnlink.                    (* somebody unlinks the cache file while the process runs *)   (* NewSparseFile returns an error AFTER it replaced the state and resized the cache file *)
 
 Record sstate := mkstate {
   s_done : list bool;               (* l.done *)
@@ -116,6 +120,7 @@ Record sstate := mkstate {
   s_threads : list thread;
   s_log : list (request * result);  (* completed requests, newest first *)
   s_crashed : bool;                 (* a goroutine panicked: the process is gone until restarted *)
+  s_nofile : bool;                  (* the cache file has been unlinked under the running process: its path is gone, open handles still read it *)
   s_fetched : list (nat * nat);     (* ghost: (call number, chunk) of every successful GetChunk whose data was written *)
 }.
 
@@ -133,12 +138,12 @@ Section Loader.
     | [] => s
     | rq :: q =>
         mkstate (s_done s) (s_file s) (s_calls s) (s_mutex s) (s_saved s)
-                (upd_thread s k (mkthread q None)) ((rq, r) :: s_log s) (s_crashed s) (s_fetched s)
+                (upd_thread s k (mkthread q None)) ((rq, r) :: s_log s) (s_crashed s) (s_nofile s) (s_fetched s)
     end.
 
   Definition set_pc (s : sstate) (k : nat) (th : thread) (p : phase) : sstate :=
     mkstate (s_done s) (s_file s) (s_calls s) (s_mutex s) (s_saved s)
-            (upd_thread s k (mkthread (queue th) (Some p))) (s_log s) (s_crashed s) (s_fetched s).
+            (upd_thread s k (mkthread (queue th) (Some p))) (s_log s) (s_crashed s) (s_nofile s) (s_fetched s).
 
   (* one atomic step of goroutine k *)
   Definition tstep (s : sstate) (k : nat) : option sstate :=
@@ -149,7 +154,7 @@ Section Loader.
       | _, [] => None
       | None, RqSave :: _ =>                                     (* WriteState: l.mu.Lock(); write done *)
           let s' := mkstate (s_done s) (s_file s) (s_calls s) (s_mutex s) (Some (s_done s))
-                            (s_threads s) (s_log s) (s_crashed s) (s_fetched s) in
+                            (s_threads s) (s_log s) (s_crashed s) (s_nofile s) (s_fetched s) in
           Some (finish s' k th RDone)
       | None, RqLoad i :: _ => Some (set_pc s k th (PNeed [i]))  (* preload worker received chunkIdx *)
       | None, RqRead off len :: _ =>                             (* ReadAt -> loadRange: indexRange + scan under RLock *)
@@ -160,7 +165,7 @@ Section Loader.
           | Some (first, last) =>
               match needed idx nullid (s_done s) first last with
               | None => Some (mkstate (s_done s) (s_file s) (s_calls s) (s_mutex s) (s_saved s) (s_threads s)
-                                      (s_log s) true (s_fetched s))      (* panic *)
+                                      (s_log s) true (s_nofile s) (s_fetched s))      (* panic *)
               | Some todo => Some (set_pc s k th (PNeed todo))
               end
           end
@@ -174,11 +179,11 @@ Section Loader.
           else if nth i (s_done s) false then Some (set_pc s k th (PNeed todo))      (* done: unlock, return nil *)
           else
             let s' := mkstate (s_done s) (s_file s) (s_calls s) (set_nth (s_mutex s) i true) (s_saved s)
-                              (s_threads s) (s_log s) (s_crashed s) (s_fetched s) in
+                              (s_threads s) (s_log s) (s_crashed s) (s_nofile s) (s_fetched s) in
             Some (set_pc s' k th (PFetch i todo))
       | Some (PFetch i todo), rq :: _ =>                         (* l.s.GetChunk + c.Data() *)
           let s' := mkstate (s_done s) (s_file s) (S (s_calls s)) (set_nth (s_mutex s) i false) (s_saved s)
-                            (s_threads s) (s_log s) (s_crashed s) (s_fetched s) in
+                            (s_threads s) (s_log s) (s_crashed s) (s_nofile s) (s_fetched s) in
           let fail e := Some (finish s' k th (match rq with RqRead _ _ => read_error e | _ => RDone end)) in
           match store (s_calls s) (r_id (nth i idx row0)) with
           | SFail c => fail (XStore c)
@@ -186,17 +191,22 @@ Section Loader.
               if (List.length d =? 0)%nat then fail XNoData
               else
                 let s'' := mkstate (s_done s) (s_file s) (S (s_calls s)) (s_mutex s) (s_saved s)
-                                   (s_threads s) (s_log s) (s_crashed s)
+                                   (s_threads s) (s_log s) (s_crashed s) (s_nofile s)
                                    ((s_calls s, i) :: s_fetched s) in
                 Some (set_pc s'' k th (PWrite i d todo))
           end
-      | Some (PWrite i d todo), _ =>                             (* f.WriteAt(b, Start) *)
+      | Some (PWrite i d todo), rq :: _ =>                       (* os.OpenFile(l.name, O_RDWR); f.WriteAt(b, Start) *)
+          if s_nofile s then                                     (* the path is gone: loadChunk returns the error *)
+            let s' := mkstate (s_done s) (s_file s) (s_calls s) (set_nth (s_mutex s) i false) (s_saved s)
+                              (s_threads s) (s_log s) (s_crashed s) (s_nofile s) (s_fetched s) in
+            Some (finish s' k th (match rq with RqRead _ _ => RErr XFile | _ => RDone end))
+          else
           let s' := mkstate (s_done s) (write_at (s_file s) (N.to_nat (r_start (nth i idx row0))) d) (s_calls s)
-                            (s_mutex s) (s_saved s) (s_threads s) (s_log s) (s_crashed s) (s_fetched s) in
+                            (s_mutex s) (s_saved s) (s_threads s) (s_log s) (s_crashed s) (s_nofile s) (s_fetched s) in
           Some (set_pc s' k th (PSet i todo))
       | Some (PSet i todo), _ =>                                 (* l.done.Set(i, true); unlock *)
           let s' := mkstate (set_nth (s_done s) i true) (s_file s) (s_calls s) (set_nth (s_mutex s) i false)
-                            (s_saved s) (s_threads s) (s_log s) (s_crashed s) (s_fetched s) in
+                            (s_saved s) (s_threads s) (s_log s) (s_crashed s) (s_nofile s) (s_fetched s) in
           Some (set_pc s' k th (PNeed todo))
       end
     end.
@@ -206,7 +216,8 @@ Section Loader.
 
   (* NewSparseFile on (cache file, state file) left by the previous incarnation *)
   Definition restart (s : sstate) (m : rmode) : sstate :=
-    let cache := match m_cache m with
+    let cache := if s_nofile s then [] else
+                 match m_cache m with
                  | CKeep => s_file s
                  | CAbsent => []                          (* OpenFile(O_CREATE) makes an empty file *)
                  | CResize k => resize (s_file s) k
@@ -214,7 +225,7 @@ Section Loader.
     let usable := match s_saved s with Some b => m_state m && state_matches b | None => false end in
     if (List.length cache =? L)%nat && usable then
       mkstate (match s_saved s with Some b => b | None => [] end) cache (s_calls s) (repeat false n) (s_saved s)
-              [] (s_log s) false (s_fetched s)
+              [] (s_log s) false false (s_fetched s)
     else
       let preload := match s_saved s with
                      | Some b => if m_preload m && m_state m && state_matches b then
@@ -225,14 +236,24 @@ Section Loader.
       (* Truncate to full size, start the preload workers, then sf.WriteState(): the state that was not used is
          replaced by the (blank) state of this incarnation *)
       mkstate (repeat false n) (resize cache L) (s_calls s) (repeat false n) (Some (repeat false n))
-              preload (s_log s) false (s_fetched s).
+              preload (s_log s) false false (s_fetched s).
 
   Definition valid_request (rq : request) : bool :=
     match rq with RqLoad i => (i <? n)%nat | _ => true end.
 
   Definition step (s : sstate) (l : label) : option sstate :=
     match l with
+    | LUnlink => Some (mkstate (s_done s) (s_file s) (s_calls s) (s_mutex s) (s_saved s) (s_threads s) (s_log s)
+                               (s_crashed s) true (s_fetched s))
     | LRestart m => Some (restart s m)
+    | LFailedStart m =>
+        (* A start-up that fails late: the state to pre-load from is read, the saved state is replaced, the cache file
+           is brought to full size, and only then pre-loading refuses the init state (wrong length): no worker is
+           started.  (If state and cache can be used as they are, NewSparseFile succeeds without looking at the init
+           file.)  What is left on disk is what [restart] without pre-load leaves; that the model lets the failed
+           incarnation serve requests although it does not exist only adds behaviours.  A start-up that fails EARLY
+           (the init file cannot be read) has changed nothing: it is not a step of this system. *)
+        Some (restart s (mkmode (m_state m) (m_cache m) false))
     | LThread k => if s_crashed s then None else tstep s k
     | LSubmit k rq =>
         if s_crashed s || negb (valid_request rq) then None
@@ -241,17 +262,17 @@ Section Loader.
           | Some th =>
               Some (mkstate (s_done s) (s_file s) (s_calls s) (s_mutex s) (s_saved s)
                             (upd_thread s k (mkthread (queue th ++ [rq]) (pc th)))
-                            (s_log s) (s_crashed s) (s_fetched s))
+                            (s_log s) (s_crashed s) (s_nofile s) (s_fetched s))
           | None =>
               Some (mkstate (s_done s) (s_file s) (s_calls s) (s_mutex s) (s_saved s)
                             (s_threads s ++ [mkthread [rq] None])
-                            (s_log s) (s_crashed s) (s_fetched s))
+                            (s_log s) (s_crashed s) (s_nofile s) (s_fetched s))
           end
     end.
 
   (* first start: no cache file, no state file; NewSparseFile creates both *)
   Definition init : sstate :=
-    mkstate (repeat false n) (repeat 0%N L) 0%nat (repeat false n) (Some (repeat false n)) [] [] false [].
+    mkstate (repeat false n) (repeat 0%N L) 0%nat (repeat false n) (Some (repeat false n)) [] [] false false [].
 
   (* run goroutine k until its current request (and everything queued) is finished; fuel-bounded *)
   Fixpoint drain (fuel : nat) (s : sstate) (k : nat) : sstate :=
